@@ -201,7 +201,7 @@ void h_register(void)
 		__CPROVER_assert(r == -1 && g_raw_reg == 0 && g_sigactions == 0 && g_ins == 0 && g_lock_acq == 0, "[C10] a signal number out of range is refused without side effects");
 	} else {
 		__CPROVER_assert(r == 0, "[C10] registration succeeds");
-		__CPROVER_assert(sig_owner_pid == verif_in.pid, "[C10] the registering process owns the interests (a forked child starts afresh)");
+		__CPROVER_assert(sig_owner_pid == verif_in.pid, "[C10,C11] the registering process owns the interests (a forked child starts afresh and then owns its own: its handler does not discard the signals it registered for, SIGCHLD of iv_wait included)");
 		__CPROVER_assert(g_raw_reg == 1 && v_is[0].ev.cookie == &v_is[0] && v_is[0].ev.handler == iv_signal_event, "[C10] wake-ups travel through the interest's own raw event");
 		__CPROVER_assert(v_is[0].active == 0, "[C10] no delivery is pending initially");
 		__CPROVER_assert(total_num_interests[sn] == ((verif_in.owner_pid != 0 && verif_in.owner_pid != verif_in.pid) ? 1 : oldcount + 1), "[C10] interests are counted per signal");
@@ -290,7 +290,7 @@ void h_do_wake(void)
 	sig = verif_in.sig;
 	for (i = 0; i < NI; i++) {
 		__CPROVER_assume(verif_in.signum[i] >= 1 && verif_in.signum[i] <= 3);
-		v_is[i].active = 0;
+		__CPROVER_assume(verif_in.active[i] <= 1);	/* a delivery may already be pending for any of them */
 		if (verif_in.in_tree[i])
 			iv_avl_tree_insert(&process_sigs, &v_is[i].an);
 	}
@@ -313,10 +313,10 @@ void h_do_wake(void)
 	}
 	j = 0;
 	for (i = 0; i < NI; i++) {
-		__CPROVER_assert(g_posted[i] == exp[i] && v_is[i].active == exp[i], "[C10] fan-out: every shared interest for the signal is woken (flag set, raw event posted once); if an exclusive interest exists it alone takes the delivery; other signals' interests are untouched");
+		__CPROVER_assert(g_posted[i] == exp[i] && v_is[i].active == (exp[i] ? 1 : verif_in.active[i]), "[C10] fan-out: every shared interest for the signal is woken (flag set, raw event posted once, whether or not a delivery was already pending); if an exclusive interest exists it alone takes the delivery; other signals' interests are untouched");
 		j += exp[i];
 	}
-	__CPROVER_assert(woken == j, "[C10] the walk reports how many interests it woke");
+	__CPROVER_assert(woken == j, "[C10] the walk reports how many interests took the delivery, those with a delivery already pending included (a zero makes the handler go on to the process-wide set)");
 	CANARY();
 }
 
